@@ -202,6 +202,9 @@ func (c *ctx) runOp(line string) string {
 			}
 			// direct oracle: each request still holds what its own frame carried
 			o, id, typ, vals, _ := sniproxy.VerifServerFrame(frames[i])
+			if o != r.Outcome && !(strings.HasPrefix(o, "panic") || strings.HasPrefix(r.Outcome, "panic")) {
+				c.fail("frame-result-depends-on-earlier-frames", fmt.Sprintf("frame %d of a sequence decoded on one server is %s; the same frame decoded first on a fresh server is %s", i, r.Outcome, o), []string{line})
+			}
 			if o == "request" && r.Outcome == "request" && (id != r.ID || typ != r.Typ || showVals(vals) != showVals(r.Vals)) {
 				c.fail("request-altered-by-later-frame", fmt.Sprintf("request %d of a sequence decoded on one server holds [%s] after the later frames were decoded; its own frame carries [%s]", i, showVals(r.Vals), showVals(vals)), []string{line})
 			}
@@ -646,7 +649,18 @@ func main() {
 				ty := hx.Pick(g.r, []string{"writeRequest", "writeRequest", "helloRequest", "dialSide2Request", "readRequest"})
 				codes := map[string]uint8{"writeRequest": 3, "helloRequest": 1, "dialSide2Request": 9, "readRequest": 4}
 				body, _ := sniproxy.VerifEncode(ty, g.vals(ty))
-				hs = append(hs, hx.Hex(append(append(u64le(uint64(g.r.Intn(100))), codes[ty]), body...)))
+				fr := append(append(u64le(uint64(g.r.Intn(100))), codes[ty]), body...)
+				// what one frame leaves behind must not matter to the next: unknown types with a body, cut
+				// frames, frames with trailing bytes and runts are mixed in
+				switch g.r.Intn(8) {
+				case 0:
+					hs = append(hs, hx.Hex(append(append(u64le(uint64(g.r.Intn(100))), byte(10+g.r.Intn(240))), g.r.Bytes(1+g.r.Intn(12))...)))
+				case 1:
+					hs = append(hs, hx.Hex(fr[:g.r.Intn(len(fr))]))
+				case 2:
+					hs = append(hs, hx.Hex(append(append([]byte{}, fr...), g.r.Bytes(1+g.r.Intn(5))...)))
+				}
+				hs = append(hs, hx.Hex(fr))
 			}
 			g.add("srvseq "+strings.Join(hs, ","), true)
 			g.rep.Count("srvseq")
